@@ -97,6 +97,7 @@ void vf_ctx_setup(F8MetaCntx *c, f8String *mt4)
    new (&k->beginStr) f8String("FIX.4.2"); k->preamble_sz = 2 + 7 + 1 + 3;
    vf_mt_hdr = new (mt4) f8String("header"); vf_mt_trl = new (mt4 + 1) f8String("trailer"); vf_mt_body = new (mt4 + 2) f8String("A"); vf_mt_grp = new (mt4 + 3) f8String("NoMsgTypes");
 }
+const void *vf_msg_entry_fn(unsigned i) { return vf_msgs[i].fn; }
 const void *vf_ctx_mk_hdr(F8MetaCntx *c) { return &c->_mk_hdr; }
 const void *vf_ctx_mk_trl(F8MetaCntx *c) { return &c->_mk_trl; }
 void vf_tab_hdr(FieldTrait *d, unsigned short *hash, FieldTrait_Hash_Array *h) { fill(d, hash, VF_H_HDR, h, vf_hdr_traits, VF_N_HDR); }
@@ -126,6 +127,9 @@ unsigned vf_extract_header(const f8String *from, char *len, char *mtype) { retur
 unsigned vf_extract_trailer(const f8String *from, f8String *chksum) { return MessageBase::extract_trailer(*from, *chksum); }
 unsigned vf_extract_element_s(const char *from, unsigned sz, f8String *tag, f8String *val) { return MessageBase::extract_element(from, sz, *tag, *val); }
 unsigned vf_mb_decode(MessageBase *m, const f8String *from, unsigned off, unsigned ignore, bool permissive) { return m->MessageBase::decode(*from, off, ignore, permissive); }
+// C02 framing: the real Message::encode(char**) (sub-encoders are cut points of the framing harness)
+size_t vf_encode(Message *m, char **store) { return m->Message::encode(store); }
+const char *vf_fmt_chksum(unsigned v, f8String *out) { new (out) f8String(Message::fmt_chksum(v)); return out->c_str(); }
 // observers
 const char *vf_unknown_data(const MessageBase *m) { return m->_unknown.data(); }
 unsigned vf_unknown_size(const MessageBase *m) { return unsigned(m->_unknown.size()); }
